@@ -35,6 +35,10 @@ Judge(r) ==
     THEN IF NestedIf0(files[r.main], FALSE, files) THEN <<V(r.id, "deviation", "NestedGreedyAnalysisPanics", "server died: " \o r.panic)>>
          ELSE <<V(r.id, "violation", "", "server died or did not answer (" \o r.panic \o ")" \o at)>>
   ELSE IF ~r.offered THEN <<>>                         \* C15 speaks about occurrences at which a rename is offered
+  ELSE IF \E e \in SeqSet(r.edits) : e.oid \in {o.oid : o \in {x \in P.occs : x.name = "index" /\ x.node = NoNode}}
+    (* the implicit loop symbol `index' is nobody's occurrence: an edit on it can only come from a record that a re-used *)
+    (* symbol index inherited                                                                                             *)
+    THEN <<V(r.id, "deviation", "LoopIndexInheritsUsages", "the edit rewrites `index' in a loop body: " \o ToString(SeqSet(r.edits)) \o at)>>
   ELSE LET exp == {[oid |-> o, text |-> r.new] : o \in RenameSet(P, r.oid)}
            U1 == {x.oid : x \in {y \in P.occs : y.node = -1}}     \* occurrences the model cannot resolve: unspecified
            U == U1 \cup {x.oid : x \in {y \in P.occs : y.node = NoNode}}   \* ... or that denote nothing the property speaks about
@@ -42,7 +46,10 @@ Judge(r) ==
            stray == {e.oid : e \in (obs \ exp) \cup (exp \ obs)}
            supers == {o.oid : o \in {x \in P.occs : x.name = "super"}} IN
        IF obs # exp
-         THEN IF r.astral # <<>> /\ stray \subseteq (SeqSet(r.astral) \cup {-2})
+         THEN IF occ.file \in ImportedTwice(files[r.main]) \/ OccOf(P, d).file \in ImportedTwice(files[r.main])
+                (* the symbol lives in a file that is imported twice: one symbol per import, the edit covers the usages of one *)
+                THEN <<V(r.id, "deviation", "RenameWithFileImportedTwice", "edit set " \o ToString(obs) \o " expected " \o ToString(exp) \o at)>>
+              ELSE IF r.astral # <<>> /\ stray \subseteq (SeqSet(r.astral) \cup {-2})
                 (* an occurrence that stands behind a character outside the BMP on its line: the server counts code points, the    *)
                 (* protocol UTF-16 code units, so the edit lands one column early (r.astral: those occurrences, by the renderer) *)
                 THEN <<V(r.id, "deviation", "PositionsCountCodePoints", "edit set " \o ToString(obs) \o " expected " \o ToString(exp) \o at)>>
@@ -77,6 +84,8 @@ Judge(r) ==
                 ambAfter == \E o \in P2.occs : Earlier(P2, o, ord) # {} /\ (o.node = d \/ d \in Earlier(P2, o, ord)) IN
             IF ~r.backDone /\ occ.file # r.main
               THEN <<V(r.id, "deviation", "ImportedFileSpanShadowsSymbols", "rename back inside an imported file returned no edit" \o at)>>
+            ELSE IF occ.file \in ImportedTwice(files[r.main]) \/ OccOf(P, d).file \in ImportedTwice(files[r.main])
+              THEN <<V(r.id, "deviation", "RenameWithFileImportedTwice", "rename back of a symbol of a file that is imported twice" \o at)>>
             ELSE IF r.oid \in SpecialOids(files, "loop")
               THEN <<V(r.id, "deviation", "LoopIndexLocatedAtCount", "rename back started on a loop count" \o at)>>
             ELSE IF SeveralVars(P, d)
